@@ -618,6 +618,11 @@ def search_replay(sc, seed, year, ir, cname, inst, line, witness, attempts, kind
         plans.insert(1, ('past the declared lines', g2, 0.0))
     directed = enum_directed_plans(ir, line, base)
     plans += directed
+    # guards that are LINES, not inputs, cannot be set directly; the commonest one is `1040.itemizing` (a branch taken
+    # only by a filer who really itemizes): a return that itemizes whatever the amounts (seed C10g: a line that does
+    # not exist, read only on the itemizing branch of a worksheet)
+    plans.insert(2, ('itemizing return', dict(base, **{'1040.itemize': 'yes', '1040_sa.itemize_though_less': 'yes',
+                                                       '1040.number_1098': '1', '1040.number_dependents': '0'}), 0.0))
     attempts = max(attempts, len(plans))
     rng = random.Random(f'{seed}/c10/search/{year}/{field}')
     for k in range(max(0, attempts - len(plans))):
